@@ -162,8 +162,11 @@ def jsonable(x):
         return jsonable(x.tolist())
     if isinstance(x, (np.integer,)):
         return int(x)
-    if isinstance(x, (np.floating,)):
-        return float(x)
+    if isinstance(x, (np.floating, float)):
+        x = float(x)
+        if x != x or x in (float('inf'), float('-inf')):
+            return repr(x)
+        return x
     if isinstance(x, (np.bool_,)):
         return bool(x)
     if isinstance(x, complex):
